@@ -229,6 +229,12 @@ static void do_lreq(char *line) {
   in_req = 1;
   rfbHttpCheckFds(screen);                 /* accepts */
   http_fd = screen->httpSock;
+  if (http_fd >= 0) {
+    struct sockaddr_storage sa; socklen_t sal = sizeof sa; int fl = fcntl(http_fd, F_GETFL);
+    getsockname(http_fd, (struct sockaddr *)&sa, &sal);
+    printf("accepted v6=%d nonblock=%d\n", sa.ss_family == AF_INET6, (fl & O_NONBLOCK) ? 1 : 0);
+  } else puts("accepted none");
+  fflush(stdout);
   rfbHttpCheckFds(screen);                 /* reads and answers */
   in_req = 0;
   alarm(30);
